@@ -43,6 +43,7 @@ func (s *S) N(note string) *S      { s.Note = note; return s }
 func (s *S) Optional() *S          { return s.R("optional", "true", "boolean") }
 func (s *S) Min(v string) *S       { return s.R("min", v, "number") }
 func (s *S) Enum(e string) *S      { return s.R("enum", e, "reference") }
+func (s *S) AllOf(t string) *S     { return s.R("allOf", `"`+t+`"`, "reference") }
 
 func (s *S) hasAnn() bool { return len(s.Rules) > 0 || s.Note != "" }
 
@@ -171,6 +172,10 @@ var tokType = map[string][2]string{
 	"str": {"string", "string"}, "bool": {"boolean", "boolean"}, "null": {"null", "null"},
 }
 
+// Resolve maps a user type name to its schema (set by Doc.Expected while it builds the expected document): needed to
+// expand allOf, whose inherited properties appear in the content with "inheritedFrom".
+var Resolve func(name string) *S
+
 // Content returns the expected JDoc "content" node.
 func (s *S) Content(key *string, optional bool) *O {
 	o := NewO(false)
@@ -200,6 +205,18 @@ func (s *S) Content(key *string, optional bool) *O {
 	switch s.K {
 	case "obj":
 		kids := []any{}
+		for _, r := range s.Rules {
+			if r.Key == "allOf" && Resolve != nil {
+				if parent := Resolve(r.scalar()); parent != nil && parent.K == "obj" {
+					for _, p := range parent.P {
+						k := p.Key
+						c := p.S.Content(&k, false)
+						c.Set("inheritedFrom", r.scalar())
+						kids = append(kids, c)
+					}
+				}
+			}
+		}
 		for _, p := range s.P {
 			k := p.Key
 			kids = append(kids, p.S.Content(&k, false))
@@ -247,6 +264,16 @@ func (s *S) Used(types, enums *[]string) {
 	for _, r := range s.Rules {
 		if r.Key == "enum" {
 			add(enums, r.Val)
+		}
+		if r.Key == "allOf" {
+			add(types, r.scalar())
+			if Resolve != nil {
+				if parent := Resolve(r.scalar()); parent != nil {
+					for _, p := range parent.P {
+						p.S.Used(types, enums) // what the inherited properties use is used here too
+					}
+				}
+			}
 		}
 	}
 	for _, p := range s.P {
